@@ -59,9 +59,14 @@ def targets_agree(cfg):
         mod = importlib.import_module(m)
         ts = mod.templates(cfg)
         tps += rotated(ts, 14 if cfg.tier == "quick" else 60, cfg.seed)
-    for tp in tps:
+    # shapes: a random table, exactly one row (single-cell / one-row results), no row
+    for tp, shape in [(tp, shape) for tp in tps for shape in ("random", "one", "empty")]:
         for be in ("polars", "sqlite"):
             inputs = {name: random_rows(schema, 4, rng, tp) for name, schema in tp.sources}
+            if shape == "one":
+                inputs = {name: (rows or random_rows(schema, 4, rng, tp) or [{c: None for c in schema}])[:1] for (name, schema), rows in zip(tp.sources, inputs.values(), strict=True)}
+            elif shape == "empty":
+                inputs = {name: [] for name in inputs}
             frames = {name: RL.frame_from_rows(schema, inputs[name]) for name, schema in tp.sources}
             try:
                 tbls = RL.polars_tables(tp.sources, frames) if be == "polars" else RL.sqlite_tables(tp.sources, RL.sqlite_engine(tp.sources, frames))
@@ -71,7 +76,7 @@ def targets_agree(cfg):
             except Exception:  # noqa: BLE001
                 continue  # refused / data outside DEF: not this property's concern
             n += 1
-            key = f"c20.targets.{be}.{tp.name}"
+            key = f"c20.targets.{be}.{tp.name}.{shape}"
             cols = base.columns
             rows = base.rows()
 
@@ -130,6 +135,11 @@ def targets_agree(cfg):
                     ser = first.export(pdt.Polars())
                     if ser.name != cols[0] or not same_rows_1(ser.to_list(), [r[0] for r in rows]):
                         bad("ColExpr.export of the first column differs")
+                    pser = first.export(pdt.Pandas())
+                    if pser.name != cols[0] or len(pser) != base.height or not same_rows_1([_pd_val(v) for v in pser.tolist()], [r[0] for r in rows]):
+                        bad("ColExpr.export(Pandas) of the first column differs", {"name": pser.name, "len": len(pser), "values": pser.tolist()[:5]})
+                    elif str(pser.dtype) != str(pdf[cols[0]].dtype):
+                        bad(f"ColExpr.export(Pandas) dtype {pser.dtype} differs from the table export's {pdf[cols[0]].dtype}")
             except Exception as e:  # noqa: BLE001
                 bad(f"export-target-error {type(e).__name__}: {str(e)[:200]}")
             if len(samples) < 4:
